@@ -1316,7 +1316,8 @@ def ref_bidirectional(alpha, cr, z, ll, p_co, p_cnt, iters=500):
     with co-propagating waves integrated forward from z=0 and counter-propagating waves backward from z=L,
         P_c(i)   = P_c(i-1) (1 + (-a_c + sum_k cr_ck P_k(i-1)) (z_i - z_{i-1})) lumped_{i-1}
         P_n(i-1) = P_n(i)   (1 + (-a_n + sum_k cr_nk P_k(i))   (z_i - z_{i-1})) lumped_i
-    iterated to convergence (1e-14 relative)"""
+    iterated to convergence (1e-14 relative).  Returns (profile, last relative update): with strong pumping the alternating
+    sweeps need not converge at all (they can settle in a 2-cycle), then the last update stays of order 1."""
     n, nco = z.size, len(p_co)
     dz = np.diff(z)
     P = np.zeros((alpha.size, n))
@@ -1330,9 +1331,10 @@ def ref_bidirectional(alpha, cr, z, ll, p_co, p_cnt, iters=500):
         for m in range(n - 1, 0, -1):
             g = -alpha + cr @ P[:, m]
             P[nco:, m - 1] = P[nco:, m] * (1 + g[nco:] * dz[m - 1]) * ll[m]
-        if np.max(np.abs(P - old) / np.maximum(np.abs(P), 1e-300)) < 1e-14:
+        last = float(np.max(np.abs(P - old) / np.maximum(np.abs(P), 1e-300)))
+        if not last >= 1e-14:
             break
-    return P
+    return P, last
 
 
 RAMAN_ITER_TOL_DB = 5e-2     # measured on the unchanged code over 1000 cases: median 1e-10 dB, worst 1.4e-2 dB (the solver stops
@@ -1352,7 +1354,19 @@ def drive_raman_pump(ctx, case, sim):
                 solver_spatial_resolution=case['step'])
         si = flat_si(freqs, case['p'])
         fib = raman_fiber(p, case['pumps'])
-        srs = RamanSolver.calculate_stimulated_raman_scattering(si, fib)
+        # count the iterations of RamanSolver.iterative_algorithm (it logs one debug line per iteration; its loop stops when
+        # residue <= 1e-6 or accuracy <= 1e-3 or after 1000 iterations - the cap means "did not converge")
+        import gnpy.core.science_utils as _su
+        iters, orig_debug = [0], _su.logger.debug
+
+        def counting_debug(msg, *a, **k):
+            if isinstance(msg, str) and 'Iteration:' in msg:
+                iters[0] += 1
+        _su.logger.debug = counting_debug
+        try:
+            srs = RamanSolver.calculate_stimulated_raman_scattering(si, fib)
+        finally:
+            _su.logger.debug = orig_debug
         with_p = srs.loss_profile[:n]
         # like for like: with counter-propagating pumps the signals are always integrated by the Euler sweeps of the
         # iterative algorithm, so the pump-free reference uses the Euler ('numerical') method on the same grid
@@ -1381,8 +1395,16 @@ def drive_raman_pump(ctx, case, sim):
         ll[int(np.searchsorted(zz, zp))] *= v
     if float(np.max(np.abs(np.diff(np.diff(zz))))) > 1e-6:
         ctx.count('raman_pump_nonuniform_grid')
-    P = ref_bidirectional(fib.alpha(f_all), fib.cr(f_all), zz, ll, np.array([case['p']] * n + [q.power for q in co_p]),
-                          np.array([q.power for q in cn_p]))
+    P, ref_last = ref_bidirectional(fib.alpha(f_all), fib.cr(f_all), zz, ll, np.array([case['p']] * n + [q.power for q in co_p]),
+                                    np.array([q.power for q in cn_p]))
+    if iters[0] >= 1000 or not ref_last < 1e-12:
+        # strong pumping: the alternating forward / backward sweeps do not converge (gnpy hits its iteration cap and / or the
+        # reference iteration keeps a relative update of order 1): there is no converged solution to compare; the property does
+        # not promise one.  The clause "counter pumps only add gain" was judged above on what gnpy returned.
+        ctx.count('raman_pump_strong_pumping_not_judged')
+        ctx.extra.setdefault('raman_pump_not_judged', []).append({'gnpy_iterations': iters[0], 'reference_last_update': ref_last})
+        return
+    ctx.count('raman_pump_solution_judged')
     refp = np.array([np.interp(srs.z, zz, P[j]) for j in range(P.shape[0])])
     if not (np.all(np.isfinite(srs.power_profile)) and np.all(srs.power_profile > 0) and np.all(refp > 0)):
         ctx.count('raman_pump_nonpositive_power_skipped')       # explicit Euler with a very coarse step can overshoot below zero
